@@ -238,7 +238,7 @@ def r3_port_kinds(ctx, nf) -> None:
     s = sym("self")
     for cname, arms in KIND_ARMS.items():
         c = mod.classes[cname]
-        m = c.methods.get("port_kind")
+        m = c.find_method("port_kind")[1]
         if m is None:
             ctx.broken(f"anchor vanished: hugr.ops.{cname}.port_kind")
         pp = m.args.args[1].arg
@@ -266,19 +266,19 @@ def r3_port_kinds(ctx, nf) -> None:
                   detail="; ".join(f"{k} -> {show(v)}" for k, v in got_n.items()))
     for cname in ALWAYS_INVALID:
         c = mod.classes[cname]
-        m = c.methods.get("port_kind")
+        m = c.find_method("port_kind")[1]
         ps = ctx.paths(f"hugr.ops.{cname}.port_kind") if m else []
         ok = bool(ps) and all(p.kind == "raise" and "_invalid_port" in p.value_text() for p in ps)
         ctx.check(ok, "C06.R3", f"hugr.ops.{cname}.port_kind", c.module.path, (m or c.node).lineno, f"{cname} has no ports: port_kind must raise InvalidPort", m)
     for cname in ALWAYS_CF:
         c = mod.classes[cname]
-        m = c.methods.get("port_kind")
+        m = c.find_method("port_kind")[1]
         ps = ctx.paths(f"hugr.ops.{cname}.port_kind") if m else []
         ok = bool(ps) and all(p.kind == "return" and p.value_text() == "tys.CFKind()" for p in ps)
         ctx.check(ok, "C06.R3", f"hugr.ops.{cname}.port_kind", c.module.path, (m or c.node).lineno, f"every port of a {cname} is a control-flow port", m)
     # DataflowOp.port_kind: order kind for -1, else ValueKind(port_type(port)); port_type = _sig_port_type(outer_signature(), port)
     d = mod.classes["DataflowOp"]
-    dm = d.methods["port_kind"]
+    dm = d.find_method("port_kind")[1]
     pp = dm.args.args[1].arg
     ps = ctx.paths("hugr.ops.DataflowOp.port_kind")
     want_v = nf.expr_nf(f"tys.ValueKind(_sig_port_type(self.outer_signature(), {pp}))", d, extra={pp: sym(pp)})[0]
@@ -343,7 +343,7 @@ def r4_call(ctx, nf) -> None:
     ctx.check(got == inst_in, "C06.R4", "hugr.ops.Call._function_port_offset", file, m.lineno,
               "the function port of a Call sits immediately after the value inputs of the *instantiated* signature; the polymorphic body "
               "can have a different arity (row variables)", m, expected=show(inst_in), found=show(got))
-    pkm = c.methods["port_kind"]
+    pkm = c.find_method("port_kind")[1]
     pname = pkm.args.args[1].arg
     want_ty, _ = nf.expr_nf(f"_sig_port_type(self.instantiation, {pname})", c, extra={pname: sym(pname)})
     want_fn, _ = nf.expr_nf("tys.FunctionKind(self.signature)", c)
@@ -364,7 +364,7 @@ def r4_call(ctx, nf) -> None:
                 ok_val = False
         else:
             ok_val = False
-    pk = c.methods["port_kind"]
+    pk = c.find_method("port_kind")[1]
     ctx.check(ok_fn, "C06.R4", "hugr.ops.Call.port_kind: function port", file, pk.lineno,
               "the input at _function_port_offset() must be the FunctionKind port carrying the polymorphic signature", pk)
     ctx.check(ok_val, "C06.R4", "hugr.ops.Call.port_kind: value ports", file, pk.lineno,
